@@ -618,7 +618,7 @@ def source_bom(repo: Repo, rep):
 
 
 POSITION_MODULES = ("_rewrite_code.py", "_change.py", "_find_external.py", "_source_file.py")
-_TAINT_THROUGH = {"len", "sum", "list", "tuple", "enumerate", "zip", "range", "sorted", "reversed", "min", "max", "iter", "next", "accumulate", "itertools.accumulate"}
+_TAINT_THROUGH = {"len", "sum", "list", "tuple", "enumerate", "zip", "range", "sorted", "reversed", "min", "max", "iter", "next", "accumulate", "itertools.accumulate", "map", "filter", "itertools.chain", "chain", "islice", "itertools.islice", "dict", "set", "frozenset", "bisect", "bisect.bisect", "bisect_right", "bisect.bisect_right", "bisect_left", "bisect.bisect_left", "array", "deque"}
 
 
 def line_model(repo: Repo, rep):
